@@ -383,7 +383,7 @@ impl<K: Hash + Ord + PartialEq + Clone, V: Clone> CompactOrderedHashMap<K, V> {
                 }
             }
             CompactOrderedHashMap::NEntries(map) => {
-                let index = map.get(&k).map(|e| e.index).unwrap_or(map.len() + 1);
+                let index = map.get(&k).map(|e| e.index).unwrap_or(map.len());
                 let result = map.insert(k, IndexedEntry::new(v, index));
                 result.map(|r| r.v)
             }
